@@ -151,17 +151,20 @@ impl<C: Premultiply<Scalar = T> + Serialize + DeserializeOwned + Copy, T: Comp> 
 }
 /// `#[serde(deserialize_with = "palette::serde::deserialize_with_optional_alpha")]`
 pub struct OptA<C, T>(Alpha<C, T>);
-impl<'de, C: Deserialize<'de>, T: Stimulus + Deserialize<'de>> Deserialize<'de> for OptA<C, T> {
+// one impl per component type, so that the helper's own trait bounds (not the harness's) decide what is callable
+macro_rules! opt_a { ($($t:ty),*) => { $(impl<'de, C: Deserialize<'de>> Deserialize<'de> for OptA<C, $t> {
     fn deserialize<D: Deserializer<'de>>(d: D) -> Result<Self, D::Error> { palette::serde::deserialize_with_optional_alpha(d).map(OptA) }
-}
+})* } }
+opt_a!(f32, f64, u8);
 /// `#[serde(deserialize_with = "palette::serde::deserialize_with_optional_pre_alpha")]`
-pub struct OptP<C: Premultiply>(PreAlpha<C>);
-impl<'de, C: Premultiply + Deserialize<'de>> Deserialize<'de> for OptP<C> where C::Scalar: Stimulus + Deserialize<'de> {
-    fn deserialize<D: Deserializer<'de>>(d: D) -> Result<Self, D::Error> { palette::serde::deserialize_with_optional_pre_alpha(d).map(OptP) }
-}
+pub struct OptP<C: Premultiply, T>(PreAlpha<C>, std::marker::PhantomData<T>);
+macro_rules! opt_p { ($($t:ty),*) => { $(impl<'de, C: Premultiply<Scalar = $t> + Deserialize<'de>> Deserialize<'de> for OptP<C, $t> {
+    fn deserialize<D: Deserializer<'de>>(d: D) -> Result<Self, D::Error> { palette::serde::deserialize_with_optional_pre_alpha(d).map(|p| OptP(p, std::marker::PhantomData)) }
+})* } }
+opt_p!(f32, f64);
 pub trait OptWrap<C, T>: DeserializeOwned { const TAG: &'static str; fn parts(self) -> (C, T); }
-impl<C: DeserializeOwned, T: Comp> OptWrap<C, T> for OptA<C, T> { const TAG: &'static str = "optalpha"; fn parts(self) -> (C, T) { (self.0.color, self.0.alpha) } }
-impl<C: Premultiply<Scalar = T> + DeserializeOwned, T: Comp> OptWrap<C, T> for OptP<C> { const TAG: &'static str = "optprealpha"; fn parts(self) -> (C, T) { (self.0.color, self.0.alpha) } }
+impl<C: DeserializeOwned, T: Comp> OptWrap<C, T> for OptA<C, T> where OptA<C, T>: DeserializeOwned { const TAG: &'static str = "optalpha"; fn parts(self) -> (C, T) { (self.0.color, self.0.alpha) } }
+impl<C: Premultiply<Scalar = T> + DeserializeOwned, T: Comp> OptWrap<C, T> for OptP<C, T> where OptP<C, T>: DeserializeOwned { const TAG: &'static str = "optprealpha"; fn parts(self) -> (C, T) { (self.0.color, self.0.alpha) } }
 
 /// `#[serde(with = "palette::serde::as_array")]` / `as_uint`
 struct AsArr<X>(X);
@@ -489,8 +492,8 @@ macro_rules! floats { ($cx:expr, $name:literal, $ty:ident < $($p:ty),* >) => {
     colour::<ty::$ty<$($p,)* u8>, u8, Alpha<ty::$ty<$($p,)* u8>, u8>, OptA<ty::$ty<$($p,)* u8>, u8>, { <<ty::$ty<$($p,)* u8> as ArrayCast>::Array as Len>::N }>($cx, $name);
 } }
 macro_rules! pre { ($cx:expr, $name:literal, $ty:ident < $($p:ty),* >) => {
-    colour::<ty::$ty<$($p,)* f32>, f32, PreAlpha<ty::$ty<$($p,)* f32>>, OptP<ty::$ty<$($p,)* f32>>, { <<ty::$ty<$($p,)* f32> as ArrayCast>::Array as Len>::N }>($cx, $name);
-    colour::<ty::$ty<$($p,)* f64>, f64, PreAlpha<ty::$ty<$($p,)* f64>>, OptP<ty::$ty<$($p,)* f64>>, { <<ty::$ty<$($p,)* f64> as ArrayCast>::Array as Len>::N }>($cx, $name);
+    colour::<ty::$ty<$($p,)* f32>, f32, PreAlpha<ty::$ty<$($p,)* f32>>, OptP<ty::$ty<$($p,)* f32>, f32>, { <<ty::$ty<$($p,)* f32> as ArrayCast>::Array as Len>::N }>($cx, $name);
+    colour::<ty::$ty<$($p,)* f64>, f64, PreAlpha<ty::$ty<$($p,)* f64>>, OptP<ty::$ty<$($p,)* f64>, f64>, { <<ty::$ty<$($p,)* f64> as ArrayCast>::Array as Len>::N }>($cx, $name);
 } }
 trait Len { const N: usize; }
 impl<T, const K: usize> Len for [T; K] { const N: usize = K; }
